@@ -7,7 +7,7 @@ CONSTANTS
   MachMax = 1
   Machine = 1
   MaxAttempts = 2
-  MaxCalls = 2
+  MaxCalls = 1
   UseCAS = TRUE
   AssumeNoFallbackOverflow = TRUE
   L = 3
